@@ -284,9 +284,39 @@ func (c07) streams(sc core.Scenario, r *core.R) {
 	}
 	var probesOK int64
 	var pw sync.WaitGroup
+	// half of the scenarios open all subscriptions at the same moment (the calls overlap), the rest one by one
+	type subRes struct {
+		start func(time.Duration, <-chan struct{}) *got
+		err   error
+	}
+	pre := make([]chan subRes, S)
 	for i := 0; i < S; i++ {
 		toks[i] = Tok("s")
-		start, err := subscribe(ctx, cl, etype, toks[i], sc.L[i], mode)
+	}
+	if sc.Seed%2 == 0 && S > 1 {
+		for i := 0; i < S; i++ {
+			i := i
+			pre[i] = make(chan subRes, 1)
+			go func() {
+				st, err := subscribe(ctx, cl, etype, toks[i], sc.L[i], mode)
+				pre[i] <- subRes{st, err}
+			}()
+		}
+	}
+	for i := 0; i < S; i++ {
+		var start func(time.Duration, <-chan struct{}) *got
+		var err error
+		if pre[i] != nil {
+			select {
+			case sr := <-pre[i]:
+				start, err = sr.start, sr.err
+			case <-time.After(2 * core.Grace):
+				r.Violate("stream-not-closed", "subscribe call %d of %d concurrent ones never returned on a healthy link; events: %s", i, S, core.Log.Tail(30))
+				return
+			}
+		} else {
+			start, err = subscribe(ctx, cl, etype, toks[i], sc.L[i], mode)
+		}
 		if err != nil {
 			r.Violate("subscribe-failed", "subscription %d of %d failed on a healthy link: %v", i, S, err)
 			return
